@@ -175,9 +175,10 @@ namespace BitSerializer::Convert::Utf
 
 				int tails = 0;
 				bool isWrongSeq = false;
-				if ((sym & 0b11100000) == 0b11000000) { tails = 2; sym &= 0b00011111; }
-				else if ((sym & 0b11110000) == 0b11100000) { tails = 3; sym &= 0b00001111; }
-				else if ((sym & 0b11111000) == 0b11110000) { tails = 4; sym &= 0b00000111; }
+				uint32_t minSym = 0;
+				if ((sym & 0b11100000) == 0b11000000) { tails = 2; sym &= 0b00011111; minSym = 0x80; }
+				else if ((sym & 0b11110000) == 0b11100000) { tails = 3; sym &= 0b00001111; minSym = 0x800; }
+				else if ((sym & 0b11111000) == 0b11110000) { tails = 4; sym &= 0b00000111; minSym = 0x10000; }
 				// Overlong sequence (was prohibited in the RFC 3629 since November 2003)
 				else if ((sym & 0b11111100) == 0b11111000) { isWrongSeq = true; tails = 5; }
 				else if ((sym & 0b11111110) == 0b11111100) { isWrongSeq = true; tails = 6; }
@@ -209,8 +210,8 @@ namespace BitSerializer::Convert::Utf
 					++in;
 				}
 
-				// Error handling when wrong sequence or when surrogate pair (prohibited in the UTF-8)
-				if (isWrongSeq || UnicodeTraits::IsInSurrogatesRange(sym))
+				// Error handling when wrong sequence, overlong form, out of Unicode range or when surrogate pair (prohibited in the UTF-8)
+				if (isWrongSeq || sym < minSym || sym > 0x10FFFF || UnicodeTraits::IsInSurrogatesRange(sym))
 				{
 					++invalidSequencesCount;
 					if (!Detail::HandleEncodingError(outStr, errorPolicy, errorMark)) {
